@@ -9,6 +9,7 @@ import (
 
 	"github.com/atombender/go-jsonschema/pkg/cmputil"
 	"github.com/atombender/go-jsonschema/pkg/codegen"
+	"github.com/atombender/go-jsonschema/pkg/mathutils"
 	"github.com/atombender/go-jsonschema/pkg/schemas"
 )
 
@@ -412,11 +413,13 @@ func (g *schemaGenerator) structFieldValidators(
 				g.output.file.Package.AddImport("regexp", "")
 			}
 		} else if strings.Contains(v.Type, "int") || v.Type == float64Type {
-			if f.SchemaType.MultipleOf != nil ||
-				f.SchemaType.Maximum != nil ||
-				f.SchemaType.ExclusiveMaximum != nil ||
-				f.SchemaType.Minimum != nil ||
-				f.SchemaType.ExclusiveMinimum != nil {
+			// A boolean exclusiveMinimum/exclusiveMaximum without the bound it qualifies checks nothing.
+			nMin, nMax, _, _ := mathutils.NormalizeBounds(
+				f.SchemaType.Minimum, f.SchemaType.Maximum,
+				f.SchemaType.ExclusiveMinimum, f.SchemaType.ExclusiveMaximum,
+			)
+
+			if f.SchemaType.MultipleOf != nil || nMin != nil || nMax != nil {
 				validators = append(validators, &numericValidator{
 					jsonName:         f.JSONName,
 					fieldName:        f.Name,
